@@ -327,6 +327,25 @@ class Ctx:
         shutil.rmtree(d, ignore_errors=True)
         return behs
 
+    def apalache(self, area, module, init, inv, length, timeout=1800):
+        """Symbolic check with Apalache (inductive-invariant style obligations). Returns True when no error was found;
+        a counterexample or a tool failure concerns the MODEL only and makes the run inconclusive."""
+        d = self.scratch('apa_%s_%s_%s' % (module, init, inv), area)
+        t0 = time.time()
+        try:
+            p = subprocess.run(['apalache-mc', 'check', '--init=' + init, '--inv=' + inv, '--length=%d' % length, module + '.tla'], cwd=d,
+                               stdout=subprocess.PIPE, stderr=subprocess.STDOUT, text=True, timeout=timeout)
+        except subprocess.TimeoutExpired:
+            raise Inconclusive('apalache timeout on %s %s/%s' % (module, init, inv))
+        ok = 'EXITCODE: OK' in p.stdout
+        log('[apalache] %s init=%s inv=%s length=%d: %s (%.1fs)' % (module, init, inv, length, 'no error' if ok else 'ERROR', time.time() - t0))
+        self.extra.setdefault('apalache_obligations', []).append({'module': module, 'init': init, 'inv': inv, 'length': length, 'discharged': ok})
+        shutil.rmtree(d, ignore_errors=True)
+        if not ok:
+            log(p.stdout[-3000:])
+            raise Inconclusive('apalache obligation %s: %s => %s (length %d) not discharged - the model changed?' % (module, init, inv, length))
+        return True
+
     # -- validating recorded real executions --------------------------------------
     def monitor(self, area, module, cfg, trace_path, label, classify=None, timeout=900, count_traces=True):
         """Validate an ndjson recording of the REAL code against a monitor spec. A rejection is a property
